@@ -24,9 +24,27 @@ func fnOfValue(v ssa.Value) *ssa.Function {
 	case *ssa.Function:
 		return x
 	case *ssa.MakeClosure:
-		return x.Fn.(*ssa.Function)
+		return unwrapBound(x.Fn.(*ssa.Function))
 	}
 	return nil
+}
+
+// unwrapBound: a method value (f.method) is a closure over a synthetic "bound method wrapper" that only
+// forwards to the method; the method itself is the function of interest.
+func unwrapBound(fn *ssa.Function) *ssa.Function {
+	if fn == nil || fn.Synthetic == "" || !strings.Contains(fn.Synthetic, "bound method wrapper") || len(fn.Blocks) != 1 {
+		return fn
+	}
+	var target *ssa.Function
+	n := 0
+	Calls(fn, func(cc ssa.CallInstruction) {
+		n++
+		target = ir.Callee(cc).Static
+	})
+	if n == 1 && target != nil {
+		return target
+	}
+	return fn
 }
 
 // groupActors lists the run.Group.Add registrations made by fn, directly or through
@@ -450,6 +468,11 @@ func (c *Ctx) ruleSignal(tb *ir.TB) {
 				u, ok := ins.(*ssa.UnOp)
 				return ok && u.Op == token.ARROW && rootP(u.X) == ch
 			}
+			// the receive may sit in a helper that always performs it (waitForSignal(sig))
+			isRecv0 := isRecv
+			isRecv = func(ins ssa.Instruction) bool {
+				return isRecv0(ins) || mustPassHelper(ins, a.execute, isRecv0, 2)
+			}
 			hasRecv := false
 			Instrs(a.execute, func(ins ssa.Instruction) {
 				if isRecv(ins) {
@@ -483,6 +506,10 @@ func (c *Ctx) ruleSignal(tb *ir.TB) {
 					return false
 				}
 				return cancelV != nil && rootP(cc.Common().Value) == ssa.Value(cancelV)
+			}
+			isCancel0 := isCancel
+			isCancel = func(ins ssa.Instruction) bool {
+				return isCancel0(ins) || mustPassHelper(ins, a.intr, isCancel0, 2)
 			}
 			has := false
 			Instrs(a.intr, func(ins ssa.Instruction) {
@@ -561,4 +588,30 @@ func (c *Ctx) ruleSignal(tb *ir.TB) {
 		c.R.Undecided("R-signal", "no-notify", "(whole program)", "-", "no signal.Notify call found (anchor unresolved)")
 	}
 	c.R.Require("R-signal", 4)
+}
+
+// mustPassHelper: ins is a static call (not go/defer-less check: plain call or defer) to a helper of the same
+// package as `from` in which every path from the entry to a return passes an instruction satisfying pred
+// (directly or through such a helper again).
+func mustPassHelper(ins ssa.Instruction, from *ssa.Function, pred func(ssa.Instruction) bool, depth int) bool {
+	cc, ok := ins.(ssa.CallInstruction)
+	if !ok || depth < 0 {
+		return false
+	}
+	if _, isGo := ins.(*ssa.Go); isGo {
+		return false
+	}
+	h := ir.Callee(cc).Static
+	if h == nil || ir.Callee(cc).Closure != nil || len(h.Blocks) == 0 || load_FuncPkgPath(h) != load_FuncPkgPath(from) || h == from {
+		return false
+	}
+	missed := false
+	ir.Search{StopInstr: func(i2 ssa.Instruction) bool {
+		return pred(i2) || mustPassHelper(i2, h, pred, depth-1)
+	}}.Reach([]ir.Point{{Block: h.Blocks[0], Idx: 0}}, func(i2 ssa.Instruction, _ *ssa.BasicBlock) {
+		if _, isRet := i2.(*ssa.Return); isRet {
+			missed = true
+		}
+	})
+	return !missed
 }
